@@ -245,8 +245,9 @@ class Negotiated:
         if self.received_open.router_id == RouterID('0.0.0.0'):
             return (2, 3, '0.0.0.0 is an invalid router_id')
 
-        if self.peer_as == neighbor.session.local_as:
-            # router-id must be unique within an ASN (the true peer AS: the OPEN field is AS_TRANS for a 4-byte AS)
+        if self.peer_as == self.local_as:
+            # router-id must be unique within an ASN (the true AS numbers: the OPEN field is AS_TRANS for a
+            # 4-byte AS, and the configured local AS is 0 when it mirrors the peer's)
             if self.received_open.router_id == neighbor.session.router_id:
                 return (
                     2,
